@@ -466,3 +466,40 @@ package tree
 //@   ensures key_level_sets_its_key: r1 == nil && s.parent != nil && s.schema == nil ==>
 //@            len(r0.Elem) >= 1 && r0.Elem[len(r0.Elem) - 1] != nil && present(r0.Elem[len(r0.Elem) - 1].Key, callres(getKeyName, 0, 0)) &&
 //@            r0.Elem[len(r0.Elem) - 1].Key[callres(getKeyName, 0, 0)] == s.pathElemName
+
+// ---------------------------------------------------------------------------
+// C02 / C01: the walks that collect (GetByOwner) and flag (markOwnerDelete) the entries of one owner cover the whole
+// branch: the entry of the node itself is taken and every child is visited, whatever the node carries.
+// The recursive calls on the children are assumed to keep what was collected so far (iface contract below, proved for
+// the only implementation in the func contract).
+//@ iface Entry.GetByOwner
+//@   params owner acc
+//@   modifies allelems(*LeafEntry)
+//@   ensures keeps_collected: len(r0) >= len(acc) && forall(i, 0, len(acc), r0[i] == old(acc[i]))
+//@ func (*childMap).GetAll
+//@   trusted copies the child map under its lock
+//@   noeffect
+//@   ensures same_children: allstr(k, present(result, k) == present(c.c, k) && (present(c.c, k) ==> result[k] == c.c[k]))
+
+//@ func (*sharedEntryAttributes).GetByOwner
+//@   props C02 C01
+//@   requires s != nil && s.leafVariants != nil && lvOK(s.leafVariants) && s.childs != nil
+//@   requires allstr(k, present(s.childs.c, k) ==> s.childs.c[k] != nil)
+//@   let acc = result
+//@   uses GetByOwner: keeps_collected
+//@   ensures keeps_collected: len(r0) >= len(acc) && forall(i, 0, len(acc), r0[i] == old(acc[i]))
+//@   ensures own_entry_is_collected: callres(LeafVariants_GetByOwner) != nil ==> len(r0) > len(acc) && r0[len(acc)] == callres(LeafVariants_GetByOwner)
+//@   ensures children_are_always_visited: called(GetAll)
+//@   loop 0 invariant collected_so_far_is_kept: len(result) >= len(acc) && forall(i, 0, len(acc), result[i] == old(acc[i]))
+//@   loop 0 invariant own_entry_stays_collected: callres(LeafVariants_GetByOwner) != nil ==> len(result) > len(acc) && result[len(acc)] == callres(LeafVariants_GetByOwner)
+//@   loop 0 invariant every_child_is_asked: allstr(k, present($map, k) ==> $map[k] != nil)
+
+//@ iface Entry.markOwnerDelete
+//@   modifies LeafEntry.Delete, LeafEntry.DeleteOnlyIntended
+//@ func (*sharedEntryAttributes).markOwnerDelete
+//@   props C02 C01
+//@   requires s != nil && s.leafVariants != nil && lvOK(s.leafVariants) && s.childs != nil
+//@   requires allstr(k, present(s.childs.c, k) ==> s.childs.c[k] != nil)
+//@   ensures own_entry_is_flagged: callres(LeafVariants_GetByOwner) != nil ==> called(MarkDelete) && callarg(MarkDelete, 0, 0) == callres(LeafVariants_GetByOwner) && callarg(MarkDelete, 0, 1) == onlyIntended
+//@   ensures children_are_always_visited: called(GetAll)
+//@   loop 0 invariant every_child_is_asked: allstr(k, present($map, k) ==> $map[k] != nil)
